@@ -387,6 +387,11 @@ Hypothesis Hlen : p_len tpool2 <= sumf (fun kb => sumf (fun l => lenN l + 1) (sn
 Hypothesis Erl : snd (lab_run a) = flat ltab.
 Hypothesis HF : Forall2 (lab_ok (p_raw tpool2)) ltab (label_names (lab_sorted a)).
 Hypothesis Hperm : Permutation (concat (map snd groups)) (map fst (txt_sorted a)).
+Hypothesis W2 : wfb d2.
+Hypothesis Wp : wfb (p_raw tpool2).
+Hypothesis Hptr : forall c v, In (c, v) (all_ptrs a) -> u32_at e d2 c = Some (trunc_w 32 v).
+Hypothesis Hstr : forall c s, In (c, s) (a_text a) ->
+  exists off, u32_at e d2 c = Some (trunc_w 32 (text_start a + off)) /\ holds (p_raw tpool2) off s.
 
 Let rp := rp_of groups.
 Let dsz := size a + lenN (pool_bytes a).
@@ -431,6 +436,136 @@ Proof.
   unfold fsz, dsz in Hs. rewrite !trunc_small by (unfold U32 in *; lia).
   rewrite add_w_ok by (unfold maxw; unfold U32 in Hs; lia). cbn [bind].
   unfold image_of. fold dsz. rewrite <- !app_assoc. reflexivity.
+Qed.
+
+Lemma dsz_le_fsz : dsz + 32 <= fsz.
+Proof. unfold fsz. lia. Qed.
+
+Lemma text_start_eq : text_start a = dsz + 4 * lenL rp + 8 * lenL ltab.
+Proof.
+  unfold text_start. rewrite Erl, length_flat. pose proof (rp_head_len groups Hperm) as H. fold rp in H.
+  unfold lenL in *. unfold dsz. lia.
+Qed.
+
+(* a string of the final text pool, seen from the start of the file *)
+Lemma text_at off s : holds (p_raw tpool2) off s -> ~ In 0 s ->
+  cstr_atN image_of (dsz + 4 * lenL rp + 8 * lenL ltab + off + 32) = Some s.
+Proof.
+  intros Hh Hn.
+  set (pre := enc e 4 fsz ++ enc e 4 dsz ++ enc e 4 (lenL rp) ++ enc e 4 (lenL ltab) ++ zeros 16
+              ++ (d2 ++ pool_bytes a) ++ u32s e rp ++ u32s e (flat ltab)).
+  assert (Ei : image_of = pre ++ p_raw tpool2 ++ []).
+  { unfold image_of, pre. rewrite app_nil_r, <- !app_assoc. reflexivity. }
+  assert (Lp : lenN pre = dsz + 4 * lenL rp + 8 * lenL ltab + 32).
+  { unfold pre. rewrite !lenN_app, !lenN_enc, !lenN_u32s, lenN_zeros, L2.
+    assert (E : lenL (flat ltab) = 2 * lenL ltab) by (unfold lenL; rewrite length_flat; lia). rewrite E. unfold dsz. lia. }
+  replace (dsz + 4 * lenL rp + 8 * lenL ltab + off + 32) with (lenN pre + off) by lia.
+  eapply holds_cstr_atN; eauto.
+Qed.
+
+Lemma ptab_small : Forall (fun x => x < U32) rp.
+Proof.
+  apply Forall_forall. intros c Hc. apply cell_small. eapply Permutation_in; [apply (rp_cells groups Hperm) | exact Hc].
+Qed.
+
+Lemma names_wf : Forall (fun named => fst named <= size a /\ ~ In 0 (snd named) /\ wfb (snd named)) (label_names (lab_sorted a)).
+Proof. apply Forall_forall. intros [k l] Hin. apply label_name_wf, Hin. Qed.
+
+Lemma ltab_small : Forall (fun p => fst p < U32 /\ snd p < U32) ltab.
+Proof.
+  pose proof fsz_small as Hs. pose proof size_small as Hz. unfold fits32 in FIT.
+  assert (HF' : Forall2 (fun (x : N * N) (y : N * bytes) => fst x < U32 /\ snd x < U32) ltab (label_names (lab_sorted a))).
+  { eapply Forall2_In_impl; [exact names_wf | | exact HF]. intros [addr off] [k l] (Hk & _ & _) [E Hh]. cbn [fst snd] in *. subst.
+    apply holds_bound in Hh. unfold fsz in Hs. split; lia. }
+  clear -HF'. induction HF'; constructor; auto.
+Qed.
+
+Lemma keys_nodup : NoDup (map fst (a_ptrs a ++ cs_ptrs a) ++ map fst (a_text a)).
+Proof.
+  apply (Permutation_NoDup (l := cells a)); [|apply (wf_cells_nodup a WF)].
+  rewrite <- (rp_cells groups Hperm). apply (rp_perm groups Hperm).
+Qed.
+
+Lemma In_lenL_pos {X} (l : list X) x : In x l -> 1 <= lenL l.
+Proof. destruct l; [intros [] | intros _; unfold lenL; cbn [length]; lia]. Qed.
+
+Lemma pool_dest c dest : In (c, dest) (cs_ptrs a) -> dest <= dsz.
+Proof.
+  intros H. destruct cs_facts as (_ & Hout & _). destruct (cs_out_fwd _ _ _ _ Hout c dest H) as (s & cells & off & _ & _ & -> & Hh).
+  apply holds_bound in Hh. destruct pool_bytes_shape as (k & E & _). unfold dsz. rewrite E, lenN_app. lia.
+Qed.
+
+Lemma ptr_cells_hold cell dest : In (cell, dest) (a_ptrs a ++ cs_ptrs a) ->
+  u32_at e (d2 ++ pool_bytes a) cell = Some dest /\ dest <= lenN (d2 ++ pool_bytes a).
+Proof.
+  intros Hin. pose proof fsz_small as Hs. pose proof dsz_le_fsz as Hd.
+  assert (Hle : dest <= dsz).
+  { apply in_app_or in Hin. destruct Hin as [Hin|Hin]; [|eapply pool_dest; eauto].
+    pose proof (wf_targets a WF _ _ Hin). unfold dsz. lia. }
+  assert (Hc : cell + 4 <= lenN d2).
+  { rewrite L2. apply (wf_cells_in a WF). apply ptr_cells_incl. apply in_map_fst with (v := dest).
+    eapply Permutation_in; [exact all_ptrs_perm | exact Hin]. }
+  split; [|rewrite lenN_app, L2; exact Hle].
+  rewrite u32_at_app_l by exact Hc. rewrite (Hptr cell dest) by (eapply Permutation_in; [exact all_ptrs_perm | exact Hin]).
+  rewrite trunc_small by lia. reflexivity.
+Qed.
+
+Lemma str_cells_hold cell s : In (cell, s) (a_text a) ->
+  exists v, u32_at e (d2 ++ pool_bytes a) cell = Some v /\ lenN (d2 ++ pool_bytes a) < v /\ cstr_atN image_of (v + 32) = Some s.
+Proof.
+  intros Hin. pose proof fsz_small as Hs. destruct (Hstr cell s Hin) as (off & Hu & Hh).
+  pose proof (holds_bound _ _ _ Hh) as Hb. pose proof text_start_eq as Et.
+  assert (Hpos : 1 <= lenL rp).
+  { unfold rp. rewrite (rp_len groups Hperm). pose proof (In_lenL_pos _ _ Hin). lia. }
+  assert (Hc : cell + 4 <= lenN d2).
+  { rewrite L2. apply (wf_cells_in a WF). unfold cells. apply in_or_app. right. apply in_or_app. left. eapply in_map_fst; eauto. }
+  exists (text_start a + off). split; [|split].
+  - rewrite u32_at_app_l by exact Hc. rewrite Hu, trunc_small; [reflexivity|]. unfold fsz in Hs. lia.
+  - rewrite lenN_app, L2. fold dsz. lia.
+  - rewrite Et. apply text_at; [exact Hh | apply (wf_strings a WF cell s Hin)].
+Qed.
+
+Lemma labels_resolved :
+  Forall2 (resolved image_of (lenN (d2 ++ pool_bytes a) + 4 * lenL rp + 8 * lenL ltab)) ltab (label_names (lab_sorted a)).
+Proof.
+  eapply Forall2_In_impl; [exact names_wf | | exact HF]. intros [addr off] [k l] (_ & Hn & _) [E Hh]. cbn [fst snd] in *.
+  split; [exact E|]. cbn [snd]. rewrite lenN_app, L2. fold dsz. apply text_at; assumption.
+Qed.
+
+Lemma labels_grouped_ok : labels_grouped (label_names (lab_sorted a)) (a_labels a).
+Proof.
+  split; [apply (wf_label_keys a WF)|]. intros addr. split.
+  - rewrite names_at_label_names by (eapply Permutation_NoDup; [apply Permutation_map, lab_sorted_perm | apply (wf_label_keys a WF)]).
+    rewrite (am_get_perm _ _ addr (wf_label_keys a WF) lab_sorted_perm). reflexivity.
+  - intros G. apply am_get_in in G. destruct (wf_labels a WF _ _ G) as (_ & Hne & _). apply Hne. reflexivity.
+Qed.
+
+Lemma image_conforms :
+  conforms e image_of {| c_data := d2 ++ pool_bytes a; c_ptrs := a_ptrs a ++ cs_ptrs a; c_text := a_text a; c_labels := a_labels a |}.
+Proof.
+  exists (zeros 16), rp, ltab, (p_raw tpool2), (label_names (lab_sorted a)). cbv zeta. cbn [c_data c_ptrs c_text c_labels].
+  split; [|split; [|split; [|split; [|split; [|split; [|split; [|split; [|split; [|split; [|split]]]]]]]]]].
+  - rewrite lenN_image. rewrite lenN_app, L2. reflexivity.
+  - reflexivity.
+  - rewrite lenN_image. exact fsz_small.
+  - exact ptab_small.
+  - exact ltab_small.
+  - exact keys_nodup.
+  - apply (rp_perm groups Hperm).
+  - exact ptr_cells_hold.
+  - exact str_cells_hold.
+  - exact labels_resolved.
+  - apply Forall_forall. intros [k l] Hin. cbn [fst]. destruct (label_name_wf _ _ Hin) as (Hk & _). rewrite lenN_app, L2. lia.
+  - exact labels_grouped_ok.
+Qed.
+
+Lemma image_wfb : wfb image_of.
+Proof.
+  unfold image_of. destruct cs_facts as (_ & _ & _ & Wc).
+  assert (Wd : wfb (d2 ++ pool_bytes a)).
+  { apply wfb_app; [exact W2|]. unfold pool_bytes, pad_to. apply wfb_app; [exact Wc | apply wfb_zeros]. }
+  do 4 (apply wfb_app; [apply wfb_enc|]). apply wfb_app; [apply wfb_zeros|]. apply wfb_app; [exact Wd|].
+  do 2 (apply wfb_app; [apply wfb_u32s|]). exact Wp.
 Qed.
 End Final.
 End Ser.
